@@ -75,7 +75,7 @@ func prelude(body string) (string, []string) {
 	for _, ax := range strAxioms {
 		rel := false
 		for _, s := range ax.syms {
-			if strings.Contains(body, s) {
+			if containsSym(body, s) {
 				rel = true
 				break
 			}
@@ -86,4 +86,12 @@ func prelude(body string) (string, []string) {
 		}
 	}
 	return b.String(), used
+}
+
+// containsSym: the function symbol occurs applied, e.g. "(sle " (not as part of "slen").
+func containsSym(body, sym string) bool {
+	if strings.HasPrefix(sym, "(") {
+		return strings.Contains(body, sym)
+	}
+	return strings.Contains(body, "("+sym+" ") || strings.Contains(body, " "+sym+")") || strings.Contains(body, " "+sym+" ")
 }
